@@ -299,6 +299,18 @@ func (t *Transaction) Insert(op *ovsdb.Operation) (ovsdb.OperationResult, *updat
 		return ovsdb.ResultFromError(err), nil
 	}
 
+	// the transaction cache only knows about the rows operated with in this
+	// transaction, make sure the row is not in the database already
+	if _, deleted := t.DeletedRows[op.UUID]; !deleted {
+		existing, err := t.Database.Get(t.DbName, op.Table, op.UUID)
+		if err != nil {
+			return ovsdb.ResultFromError(err), nil
+		}
+		if existing != nil {
+			return ovsdb.ResultFromError(fmt.Errorf("duplicate uuid: row %s already exists in table %s", op.UUID, op.Table)), nil
+		}
+	}
+
 	update := updates.ModelUpdates{}
 	err := update.AddOperation(t.Model, op.Table, op.UUID, nil, op)
 	if err != nil {
